@@ -252,7 +252,7 @@ func (s *EncryptionSession) In(seqNum uint32, prio bool) (
 		if prio {
 			return nil, errors.New("prio sequence handler requested key rollover")
 		}
-		s.prioSeqHandler.Reset()
+		s.prioSeqHandler.ResetIn()
 		if err := s.rolloverInKey(); err != nil {
 			return nil, fmt.Errorf("rollover in key: %w", err)
 		}
@@ -289,7 +289,7 @@ func (s *EncryptionSession) Out(prio bool) (
 		if prio {
 			return 0, 0, 0, nil, errors.New("prio sequence handler requested key rollover")
 		}
-		s.prioSeqHandler.Reset()
+		s.prioSeqHandler.ResetOut()
 		if err := s.rolloverOutKey(); err != nil {
 			return 0, 0, 0, nil, fmt.Errorf("rollover in key: %w", err)
 		}
@@ -406,6 +406,24 @@ func (sh *SequenceHandler) Reset() {
 	defer sh.lock.Unlock()
 
 	sh.highest = 0
+	sh.outSeq.Store(0)
+}
+
+// ResetIn resets only the incoming sequence counter.
+// It is used when the incoming key was rolled over: the remote restarts its
+// priority sequence, but our own outgoing priority sequence continues, as our
+// outgoing key did not change.
+func (sh *SequenceHandler) ResetIn() {
+	sh.lock.Lock()
+	defer sh.lock.Unlock()
+
+	sh.highest = 0
+}
+
+// ResetOut resets only the outgoing sequence counter.
+// It is used when the outgoing key was rolled over: we restart our priority
+// sequence, but the remote continues its own under its unchanged key.
+func (sh *SequenceHandler) ResetOut() {
 	sh.outSeq.Store(0)
 }
 
